@@ -58,6 +58,8 @@ class Unit:
         self.allow = []        # allowed assumption markers
         self.kani = []
         self.pathmap = []
+        self.autoproof = []
+        self.autoinv = []
 
 
 def parse_opts(words):
@@ -140,6 +142,12 @@ def parse_unit(path):
             # @pathmap crate::ansi:: =>            (prefix token sequence -> replacement text)
             lhs, _, rhs = ln[len("@pathmap"):].partition("=>")
             u.pathmap.append((lhs.strip(), rhs.strip()))
+            i += 1
+        elif d == "@autoproof":
+            u.autoproof.append(ln[len("@autoproof"):].strip())
+            i += 1
+        elif d == "@autoinv":
+            u.autoinv.append(ln[len("@autoinv"):].strip())
             i += 1
         elif d == "@props":
             u.props = words[1:]
@@ -392,14 +400,16 @@ def common_rewrites(ctx, sf, a, b, item_kind, opts):
             ctx.fire("N3", sf, t.start)
             k += 3
             continue
-        # N4: (A..B).for_each(|_| BODY);  ->  for _ in A..B { BODY; }
+        # N4: (A..B).for_each(|v| BODY);  ->  for v in A..B { BODY; }      (v an identifier or `_`; also `..=`)
         if t.text == "(" and toks[pair[k] + 1].text == "." and toks[pair[k] + 2].text == "for_each" \
                 and toks[pair[k] + 3].text == "(":
             close_rng = pair[k]
             call_open = close_rng + 3
             call_close = pair[call_open]
             ct = toks[call_open + 1:call_open + 4]
-            if [x.text for x in ct] == ["|", "_", "|"] and any(x.text == ".." for x in toks[k + 1:close_rng]):
+            if ct[0].text == "|" and ct[2].text == "|" and (ct[1].kind == "id" or ct[1].text == "_") \
+                    and any(x.text in ("..", "..=") for x in toks[k + 1:close_rng]):
+                var = ct[1].text
                 body_lo = toks[call_open + 4].start
                 body_hi = toks[call_close].start
                 rng = sf.text[toks[k + 1].start:toks[close_rng].start]
@@ -407,12 +417,45 @@ def common_rewrites(ctx, sf, a, b, item_kind, opts):
                 if semi.text == ";":
                     body_text_end = sf.text[body_lo:body_hi].rstrip()
                     needs_semi = not body_text_end.endswith("}") and not body_text_end.endswith(";")
-                    edits.append(Edit(t.start, body_lo, f"for _ in {rng} {{ "))
+                    edits.append(Edit(t.start, body_lo, f"for {var} in {rng} "))
+                    edits.append(Edit(body_lo, body_lo, "{ ", prio=0.5))
                     edits.append(Edit(body_hi, semi.end, (";" if needs_semi else "") + " }"))
                     ctx.fire("N4", sf, t.start)
-                    # continue scanning inside the body for nested rules
                     k = call_open + 4
                     continue
+        # N4r: (A..=B).rev().for_each(|v| BODY);  ->  exact counting-down while loop
+        if t.text == "(" and toks[pair[k] + 1].text == "." and toks[pair[k] + 2].text == "rev" \
+                and toks[pair[k] + 3].text == "(" and toks[pair[k] + 5].text == "." and toks[pair[k] + 6].text == "for_each":
+            close_rng = pair[k]
+            call_open = close_rng + 7
+            call_close = pair[call_open]
+            ct = toks[call_open + 1:call_open + 4]
+            d = k + 1
+            while d < close_rng and toks[d].text not in ("..", "..="):
+                d = pair[d] + 1 if toks[d].text in ("(", "[") else d + 1
+            if ct[0].text == "|" and ct[2].text == "|" and ct[1].kind == "id" and d < close_rng \
+                    and toks[call_close + 1].text == ";":
+                var = ct[1].text
+                A = sf.text[toks[k + 1].start:toks[d - 1].end]
+                B = sf.text[toks[d + 1].start:toks[close_rng - 1].end]
+                incl = toks[d].text == "..="
+                body_lo = toks[call_open + 4].start
+                body_hi = toks[call_close].start
+                c = f"{var}__c"
+                if incl:
+                    head = f"{{ let {c}_lo = {A}; let mut {c} = {B}; let mut {c}_more = {c} >= {c}_lo; while {c}_more "
+                    first = f"{{ let {var} = {c}; {c}_more = {c} > {c}_lo; if {c}_more {{ {c} -= 1; }} "
+                else:
+                    head = f"{{ let {c}_lo = {A}; let mut {c} = {B}; while {c} > {c}_lo "
+                    first = f"{{ {c} -= 1; let {var} = {c}; "
+                body_text_end = sf.text[body_lo:body_hi].rstrip()
+                needs_semi = not body_text_end.endswith("}") and not body_text_end.endswith(";")
+                edits.append(Edit(t.start, body_lo, head))
+                edits.append(Edit(body_lo, body_lo, first, prio=0.5))
+                edits.append(Edit(body_hi, toks[call_close + 1].end, (";" if needs_semi else "") + " } }"))
+                ctx.fire("N4r", sf, t.start)
+                k = call_open + 4
+                continue
         # N6: log::x!(..) -> (); format!/anyhow!/… handled at listed sites via opts
         if t.kind == "id" and t.text == "log" and toks[k + 1].text == "::" and toks[k + 3].text == "!":
             close = pair[k + 4]
@@ -514,19 +557,25 @@ LOOP_KW = ("for", "while", "loop")
 
 
 def find_loops(sf, body_open, body_close):
-    """Return list of (kw_tok_idx, body_open_idx) for loops in source order (incl. nested)."""
+    """Loops of a function body in source order (incl. nested): for / while / loop keywords and
+    `(range).for_each(|v| ..)` / `(range).rev().for_each(|v| ..)` call sites (which rule N4 turns into loops).
+    Returns list of (kw_tok_idx, contract_insert_off, body_start_off, body_end_off, kind)."""
     toks, pair = sf.toks, sf.pair
     out = []
     k = body_open + 1
     while k < body_close:
         t = toks[k]
         if t.kind == "id" and t.text in LOOP_KW and toks[k - 1].text not in (".", "::") \
-                and not (t.text == "for" and toks[k - 1].text in ("impl",) ) \
+                and not (t.text == "for" and toks[k - 1].text in ("impl",)) \
                 and not (t.text == "for" and toks[k + 1].text == "<"):
             j = k + 1
             while j < body_close and toks[j].text != "{":
                 j = pair[j] + 1 if toks[j].text in ("(", "[") else j + 1
-            out.append((k, j))
+            out.append((k, toks[j].start, toks[j].end, toks[pair[j]].start, t.text))
+        elif t.kind == "id" and t.text == "for_each" and toks[k - 1].text == "." and toks[k + 1].text == "(" \
+                and toks[k + 2].text == "|" and toks[k + 4].text == "|" and toks[k - 2].text == ")":
+            call_open = k + 1
+            out.append((k, toks[call_open + 4].start, toks[call_open + 4].start, toks[pair[call_open]].start, "for_each"))
         k += 1
     return out
 
@@ -647,12 +696,19 @@ def build_fn(ctx, unit, fs):
     multi = []   # (offset, [Seg], prio)
     if spec_segs:
         multi.append((ins_off, spec_segs, 0))
+    if has_body and not fs.opts.get("external_body"):
+        if unit.autoproof and not fs.opts.get("noauto"):
+            multi.append((toks[it.body_open].end, [Seg("\nproof { " + " ".join(unit.autoproof) + " }\n", ("ins", fn_label, "autoproof", None))], 0.9))
+        for ls_ in fs.loops.values():
+            if unit.autoinv and not ls_.get("auto_done"):
+                ls_["invariant"] = [(None, x) for x in unit.autoinv] + ls_["invariant"]
+                ls_["auto_done"] = True
     if has_body:
         loops = find_loops(sf, it.body_open, it.body_close)
         for ordn, ls in sorted(fs.loops.items()):
             if ordn < 1 or ordn > len(loops):
                 raise LostAnchor(f"{fs.path}: loop #{ordn} not found (function has {len(loops)} loops)")
-            kw, lb = loops[ordn - 1]
+            kw, ins_off, body_lo_off, body_hi_off, lkind = loops[ordn - 1]
             want_kw = ls["opts"].get("kw")
             if want_kw and toks[kw].text != want_kw:
                 raise LostAnchor(f"{fs.path}: loop #{ordn} is `{toks[kw].text}`, contract expects `{want_kw}`")
@@ -663,7 +719,7 @@ def build_fn(ctx, unit, fs):
                 segs += clause_block(mode, cl, fn_label + f"/loop{ordn}", "        ")
             if ls["decreases"]:
                 segs.append(Seg("        " + ls["decreases"] + "\n", ("ins", fn_label + f"/loop{ordn}", "decreases", None)))
-            multi.append((toks[lb].start, segs, 0))
+            multi.append((ins_off, segs, 0))
             if ls["iter"]:
                 if toks[kw].text != "for":
                     raise LostAnchor(f"{fs.path}: loop #{ordn} is not a for loop")
@@ -685,8 +741,8 @@ def build_fn(ctx, unit, fs):
                 ordn = int(arg)
                 if ordn > len(loops):
                     raise LostAnchor(f"{fs.path}: loop #{ordn} not found")
-                kw, lb = loops[ordn - 1]
-                off = toks[lb].end if where == "loop_body_start" else toks[pair[lb]].start
+                kw, ins_off, body_lo_off, body_hi_off, lkind = loops[ordn - 1]
+                off = body_lo_off if where == "loop_body_start" else body_hi_off
             else:
                 raise UnitSyntaxError(f"unknown proof position {where}")
             raw = popts.get("raw")
@@ -694,6 +750,14 @@ def build_fn(ctx, unit, fs):
             multi.append((off, [Seg("\n" + body + "\n", ("ins", fn_label, label, None))], 1))
         for rule, anchor, nth, ropts in fs.rewrites:
             edits += site_rewrite(ctx, sf, it, rule, anchor, nth, ropts, fs.path)
+    if fs.opts.get("external_body") and has_body:
+        # T5: assumed-contract function: the body is not read by Verus; it is elided so that rustc does not need
+        # the items it mentions. Listed in the evidence as an assumed contract.
+        edits = [e for e in edits if e.end <= toks[it.body_open].start]
+        multi = [m for m in multi if m[0] <= toks[it.body_open].start]
+        edits.append(Edit(toks[it.body_open].end, toks[it.body_close].start, " unimplemented!() "))
+        fs.attrs = list(fs.attrs) + ["#[verifier::external_body]"]
+        ctx.fire("T5", sf, toks[it.body_open].start, f"body of assumed-contract fn {it.name} elided")
     segs = apply_edits_multi(sf, start_off, it.end, edits, multi)
     attrs = "".join(a + "\n" for a in fs.attrs)
     if attrs:
@@ -1097,7 +1161,6 @@ def impl_header_text(sf, fs):
     """source text of the enclosing impl/trait header of a function spec (visibility stripped)."""
     file_rel, _, rest = fs.path.partition("::")
     elems = [e.strip() for e in rest.split("::")]
-    parent = sf.find(elems[:-1]) if len(elems) > 1 else None
     # find() on a non-leaf returns the unique block only when there is one; otherwise use the
     # block that contains the function
     fn_item = sf.find(elems)
